@@ -18,12 +18,27 @@ package common
 //@   at Delete(ri, ctx, n, opts) [C02,C06]: opts.PropagationPolicy != nil && *opts.PropagationPolicy == metav1.DeletePropagationBackground
 //@   at Delete(ri, ctx, n, opts) [C02]: client.Namespaced && obj.GetNamespace() != "" ==> riNamespace(ri) == obj.GetNamespace() && riRoot(ri) == client.rootClient
 
+// ApplyUpdate: the three-way merge of (observed, last-applied of observed, desired) with system metadata and status reverted
+// to the observed values and the last-applied record set to the desired state *without* a last-applied annotation of its own.
 //@ func ApplyUpdate(orig, update) (newObj, err)
-//@   trusted identity/revert clauses are exercised by the bounded merge harness, not proved by the VC generator
 //@   requires orig != nil && update != nil
-//@   ensures err == nil ==> newObj != nil && fresh(newObj)
-//@   ensures err != nil ==> newObj == nil
-//@   ensures err == nil ==> newObj.GetName() == orig.GetName() && newObj.GetNamespace() == orig.GetNamespace() && newObj.GetUID() == orig.GetUID() && newObj.GetResourceVersion() == orig.GetResourceVersion()
+//@   safety C05,C13
+//@   bind call GetLastApplied: la, laErr
+//@   bind call Merge: merged, mergeErr
+//@   // the hook's answer must not smuggle a last-applied annotation into the record: it is removed from `update` before update is
+//@   // used as desired state and as the new last-applied record (a record containing itself never stabilises: C01)
+//@   at nullifyLastAppliedAnnotation(o) [C05,C01]: o == update && !called(Merge) && !called(SetLastApplied)
+//@   at Merge(obs, last, des) [C05]: called(nullifyLastAppliedAnnotation) && laErr == nil && last == la && obs == orig.Object && des == update.Object
+//@   at revertObjectMetaSystemFields(n, o) [C05]: mergeErr == nil && o == orig && n != nil && n.Object == merged && fresh(n)
+//@   at revertField#2(n, o, path) [C05]: mergeErr == nil && o == orig && n != nil && n.Object == merged && len(path) == 1 && path[0] == "status" && called(revertObjectMetaSystemFields)
+//@   at SetLastApplied(n, rec) [C05,C01]: called(nullifyLastAppliedAnnotation) && called(revertField) && rec == update.Object && n != nil && n.Object == merged
+//@   ensures [C05] err == nil ==> newObj != nil && fresh(newObj) && newObj.Object == merged && count(Merge) == 1 && count(SetLastApplied) == 1
+//@   ensures [C05,C13] err != nil ==> newObj == nil
+//@   ensures [C05] laErr != nil ==> err != nil && !called(Merge)
+//@   ensures [C05] called(Merge) && mergeErr != nil ==> err != nil && !called(SetLastApplied)
+//@   // identity of the result in terms of the object observers: follows from revertObjectMetaSystemFields on the content map; the
+//@   // link between the content map and the observers is not modelled, hence assumed here (callers rely on it)
+//@   ensures-assumed err == nil ==> newObj.GetName() == orig.GetName() && newObj.GetNamespace() == orig.GetNamespace() && newObj.GetUID() == orig.GetUID() && newObj.GetResourceVersion() == orig.GetResourceVersion()
 //@   tags err == nil ==> ufb_applyResult(newObj, orig, update)
 
 //@ func MakeControllerRef(parent) (r)
